@@ -459,3 +459,74 @@ Fixpoint count_expiries_before (s : side) (lim : N) (t : list (N * ev)) : N :=
   | (at_, EExpire s') :: r => (if side_eqb s s' && (at_ <=? lim) then 1 else 0) + count_expiries_before s lim r
   | _ :: r => count_expiries_before s lim r
   end.
+
+(* ------------------------------------------------------------------ the property on a trace *)
+Fixpoint sum_timeouts (k : nat) (cur : N) : N :=
+  match k with O => 0 | S k' => cur + sum_timeouts k' (backoff cur) end.
+Definition delays (fs : list fault) : N :=
+  fold_left (fun a f => match f_kind f with FDelay => a + f_ms f | _ => a end) fs 0.
+(* time allowed to a handshake hit by the faults fs: one retransmission timeout of the schedule
+   per fault, plus the injected delays (and one millisecond per serialised simultaneous expiry) *)
+Definition allowed (fs : list fault) : N := sum_timeouts (length fs) t_init + delays fs + N.of_nat (length fs).
+
+Fixpoint expiry_before_done (cd sd : bool) (t : list (N * ev)) : bool :=
+  match t with
+  | [] => false
+  | (_, EDone Cl true) :: r => expiry_before_done true sd r
+  | (_, EDone Sv true) :: r => expiry_before_done cd true r
+  | (_, EExpire _) :: r => negb (cd && sd) || expiry_before_done cd sd r
+  | _ :: r => expiry_before_done cd sd r
+  end.
+Fixpoint got_before_done (cd sd : bool) (t : list (N * ev)) : bool :=
+  match t with
+  | [] => false
+  | (_, EDone Cl true) :: r => got_before_done true sd r
+  | (_, EDone Sv true) :: r => got_before_done cd true r
+  | (_, EGot Cl) :: r => negb cd || got_before_done cd sd r
+  | (_, EGot Sv) :: r => negb sd || got_before_done cd sd r
+  | _ :: r => got_before_done cd sd r
+  end.
+Definition late (s : side) (fs : list fault) (t : list (N * ev)) : bool :=
+  match done_time s t with Some d => allowed fs <? d | None => true end.
+
+
+(* what C19 asks of one run: both endpoints complete, application data flows in both directions
+   and only after completion, both completions within the time the schedule allows, and without
+   any fault no deadline expires before both have completed *)
+Definition good_trace (fs : list fault) (t : list (N * ev)) : bool :=
+  negb (got_before_done false false t) && got Cl t && got Sv t &&
+  negb (late Cl fs t) && negb (late Sv fs t) &&
+  match fs with [] => negb (expiry_before_done false false t) | _ => true end.
+Definition good_run (c : cfg) (fs : list fault) : bool :=
+  let '(n, finished) := simulate c fs in
+  finished && complete (cl n) && complete (sv n) && good_trace fs (rev (trace n)).
+
+(* the fault patterns that are enumerated: any datagram index below max_idx of either side,
+   lost, duplicated, or delayed by one of the listed amounts *)
+Definition delay_set : list N := [30; 150; 450; 1200].
+Definition sides : list side := [Cl; Sv].
+Definition fault_space (max_idx : nat) : list fault :=
+  flat_map (fun s => flat_map (fun i =>
+     [mkFault s i FDrop 0; mkFault s i FDup 0] ++ map (fun d => mkFault s i FDelay d) delay_set)
+     (map N.of_nat (seq 0 max_idx))) sides.
+Definition all_cfgs : list cfg :=
+  [mkCfg false false false; mkCfg false false true; mkCfg false true false; mkCfg false true true;
+   mkCfg true false false; mkCfg true false true; mkCfg true true false; mkCfg true true true].
+
+(* an endpoint completes only after a datagram carrying the peer's Finished has been handed to it *)
+Definition has_fin (d : dgram) : bool :=
+  existsb (fun r => match r with mkRec _ _ BEnc => true | _ => false end) d.
+Definition hands_over (a : nact) : bool := match a with Ndeliver | Ndup | Nlate => true | _ => false end.
+Fixpoint done_after_fin (s : side) (sent : list N) (handed : bool) (t : list (N * ev)) : bool :=
+  match t with
+  | [] => true
+  | (_, ESend s' i d) :: r =>
+      done_after_fin s (if side_eqb s' (other s) && has_fin d then i :: sent else sent) handed r
+  | (_, ENet a s' i) :: r =>
+      done_after_fin s sent (handed || (side_eqb s' (other s) && hands_over a && existsb (N.eqb i) sent)) r
+  | (_, EDone s' true) :: r => (negb (side_eqb s s') || handed) && done_after_fin s sent handed r
+  | _ :: r => done_after_fin s sent handed r
+  end.
+
+(* the values the retransmission timeout can take *)
+Definition schedule : list N := [100; 200; 400; 800; 1600].
